@@ -159,7 +159,17 @@ def load_program(path):
     """Load with a pickle side-cache (facts are immutable once written)."""
     pk = path + ".pickle"
     try:
-        if os.path.getmtime(pk) >= os.path.getmtime(path):
+        # the normalised program depends on the facts, on the recorded anchors and on the
+        # normalisation code itself
+        deps = [path]
+        here = os.path.dirname(os.path.abspath(__file__))
+        deps += [os.path.join(here, x) for x in ("anchors.py", "inline.py", "facts.py")]
+        try:
+            import anchors as _a
+            deps.append(_a.ANCHORS)
+        except Exception:
+            pass
+        if os.path.getmtime(pk) >= max(os.path.getmtime(d) for d in deps if os.path.exists(d)):
             with open(pk, "rb") as f:
                 return pickle.load(f)
     except Exception:
